@@ -320,7 +320,14 @@ def empty_tests(bi, slab):
                 eds = [x_ for x_ in eds if x_]
                 if eds:
                     out.append((e["block"], eds))
-    return out
+    # one test per block (compare_tests lists the unsigned-equivalent spellings of one comparison)
+    merged = {}
+    for blk, eds in out:
+        m = merged.setdefault(blk, [])
+        for x_ in eds:
+            if x_ not in m:
+                m.append(x_)
+    return sorted(merged.items())
 
 
 def rule_empty(ctx, M, u, rule, extra_guards=()):
